@@ -291,6 +291,28 @@ def _run(plan, ctx, child):
             ctx.fault("listdir_permuted")
         finally:
             dbc.os = real_os
+        # (g) a different source object on the SAME directory, with the other price-adjustment setting, served a
+        #     session first; the real run then builds its own source on that directory
+        try:
+            for fn in (dbc.CSVDailyBarDataSource.get_bid, dbc.CSVDailyBarDataSource.get_ask):
+                cc = getattr(fn, "cache_clear", None)
+                if cc:
+                    cc()            # start this variant from cold memo caches
+            other = dbc.CSVDailyBarDataSource(dirpath, Equity, adjust_prices=False)
+            sl.run_session(cfg, market, monitors=False, shared_source=other)
+            for sym, t in plan["adhoc"]:
+                try:
+                    other.get_bid(ts(t), "EQ:" + sym)
+                except Exception:
+                    pass
+            cfg7 = dict(cfg)
+            cfg7["data_via"] = "handler_listdir" if cfg["data_via"] != "env" else "env"
+            out7 = sl.run_session(cfg7, market, monitors=True, dirpath=dirpath, uuid_seed=us + 20)
+            d7, p7 = result_digest(out7)
+            variants.append(("after_an_unadjusted_source_on_the_same_directory", d7, p7))
+            ctx.fault("other_source_same_directory")
+        except Exception:
+            ctx.probe("variant_g_not_applicable")
     finally:
         shutil.rmtree(dirpath, ignore_errors=True)
     for name, dg, parts in variants:
